@@ -1,8 +1,11 @@
 import Drivers.RegWorld
 import Spine.RegData
+import Spine.RegWire
 open Spine.Reg
 /-! Line protocol for the registry family (C08, C09, C10). One op per line, one answer per line.
     `cfg a b c d` (0/1 each) selects the member: delSubByDevice delBindByDevice unbindDisjunct dropBindsAnyPeer. -/
+def showWEntry (w : Spine.RegWire.WEntry) : String := s!"{w.id}:{showEnt w.sEnt}/{w.sFeat}<-{w.cDev}:{showEnt w.cEnt}/{w.cFeat}"
+def showW (l : List Spine.RegWire.WEntry) : String := if l.isEmpty then "." else ",".intercalate (l.map showWEntry)
 def answer (cfg : Cfg) (br : List Nat) (s : St) (ws : List String) : Cfg Ã— St Ã— String :=
   match ws with
   | ["sub", p, ce, cf, se, sf, t] => match nats [p, cf, sf, t] with
@@ -45,6 +48,13 @@ def answer (cfg : Cfg) (br : List Nat) (s : St) (ws : List String) : Cfg Ã— St Ã
     | none => (cfg, s, "bad-op")
   | ["binds", p] => match p.toNat? with
     | some p => (cfg, s, showL (bindsOf s p))
+    | none => (cfg, s, "bad-op")
+  -- the list as sent over the wire to peer p (reply to a read of the subscription / binding data)
+  | ["wire", "subs", p] => match p.toNat? with
+    | some p => (cfg, s, showW (Spine.RegWire.readSubs false s p))
+    | none => (cfg, s, "bad-op")
+  | ["wire", "binds", p] => match p.toNat? with
+    | some p => (cfg, s, showW (Spine.RegWire.readBinds false s p))
     | none => (cfg, s, "bad-op")
   | ["notify", se, sf] => match sf.toNat? with
     | some sf => (cfg, s, toString ((delivered s (br.contains Â·) (parseEnt se) sf).map fun (p, e, f) => s!"{p}:{showEnt e}/{f}"))
